@@ -1185,6 +1185,58 @@ def c03_announcing_huge(rng, quick):
     return out
 
 
+BANNER = '# Disk DescriptorFile\nversion=1\nCID=fffffffe\nparentCID=ffffffff\n'      # exactly 64 bytes
+
+
+def text_descriptor(offset, rng, banner=BANNER, typ='monolithicSparse', tail=True):
+    """a text VMDK descriptor whose createType line starts at byte `offset` (>= len(banner)): the standard
+    preamble, comment padding, then createType and an extent"""
+    pad = offset - len(banner)
+    assert pad >= 0
+    body = ''
+    while pad > 0:
+        n = min(pad, 72)
+        if pad - n == 1:
+            n -= 1
+        body += '\n' if n == 1 else '#' + rng.choice('-x. ') * (n - 2) + '\n'
+        pad -= n
+    t = banner + body + 'createType="%s"\n' % typ
+    if tail:
+        t += '\n# Extent description\nRW 2048 SPARSE "disk.vmdk"\n\n#DDB\nddb.adapterType = "ide"\n'
+    return t.encode('ascii')
+
+
+def c03_text_descriptors(rng, quick):
+    """(label, bytes, allowed_formats, read sizes): text descriptors with the createType line at many offsets,
+    read with tiny reads through wrappers that can decide early (few allowed formats; all formats when the line
+    lies beyond the slowest inspector's 256 KiB) - the decision is sampled after every read and must never
+    be revised"""
+    out = []
+    offsets = [64, 65, 66, 100, 128, 511, 512, 513, 600, 1000, 4096, 4097]
+    alloweds = [['vmdk', 'raw'], ['vmdk'], ['vmdk', 'qcow2', 'raw'], ['raw', 'vmdk', 'gpt', 'vdi'], ['vmdk', 'luks']]
+    reads = [1, 7, 16, 32, 63, 64, 65, 100, 512]
+    banners = [BANNER, BANNER.upper(), BANNER.replace('version=1\n', 'version=1\r\n'),
+               '# Disk DescriptorFile\n', 'version=1\n# no banner\n' + 'x=1\n' * 10]
+    for off in offsets:
+        for bn in (banners if not quick else [BANNER, rng.choice(banners[1:])]):
+            o = max(off, len(bn))
+            data = text_descriptor(o, rng, bn, typ=rng.choice(['monolithicSparse', 'streamOptimized', 'vmfs', 'monolithicFlat']))
+            n = len(data)
+            for al in (alloweds if not quick else rng.sample(alloweds, 2)):
+                for r in (reads if not quick else rng.sample(reads[:6], 2) + [rng.choice(reads[6:])]):
+                    if r == 1 and n > 1500:
+                        continue
+                    out.append(('textdesc-createtype@%d-read%d' % (o, r), data, al, [r] * (n // r + 1) + [r, 0]))
+    # createType beyond 256 KiB: every format's inspector has decided by then
+    for off in ([300 * K] if quick else [256 * K + 1, 300 * K, 520 * K]):
+        data = text_descriptor(off, rng)
+        n = len(data)
+        for al, r in ([(None, 65536), (['vmdk', 'raw'], 4096)] if quick else
+                      [(None, 65536), (None, 4096), (['vmdk', 'raw'], 4096), (['vmdk', 'raw'], 64), (['vmdk'], 512)]):
+            out.append(('textdesc-createtype@%d-read%d' % (off, r), data, al, [r] * (n // r + 1) + [r, 0]))
+    return out
+
+
 def c03_priors(rng, quick):
     """(label, bytes): streams inspected *before* the stream under test, in the same process - a valid image
     of every format (what a long-running service has seen earlier must not matter)"""
